@@ -53,7 +53,105 @@ def model_to_dict(m):
     return out
 
 
-def discharge(ob, z3_timeout_ms=10000, cvc5_timeout_s=30, cross_check=False):
+def _ground_terms(fs):
+    """ground subterms (no bound variables), by sort, of a list of formulas; quantifier bodies are not entered"""
+    seen, by_sort = set(), {}
+
+    def walk(t):
+        i = t.get_id()
+        if i in seen:
+            return
+        seen.add(i)
+        if z3.is_quantifier(t):
+            return
+        if z3.is_app(t):
+            for c in t.children():
+                walk(c)
+            srt = t.sort()
+            if srt.kind() in (z3.Z3_UNINTERPRETED_SORT, z3.Z3_SEQ_SORT) or (srt.kind() == z3.Z3_INT_SORT and t.num_args() == 0 and t.decl().kind() == z3.Z3_OP_UNINTERPRETED):
+                by_sort.setdefault(srt.name() if hasattr(srt, "name") else str(srt), {})[i] = t
+    for f in fs:
+        walk(f)
+    return {k: list(v.values()) for k, v in by_sort.items()}
+
+
+def _instantiate(f, terms, positive=True, cap=40):
+    """replace universally quantified subformulas in positive position by the conjunction of their ground instances"""
+    if z3.is_quantifier(f):
+        if f.is_forall() and positive:
+            n = f.num_vars()
+            cands = []
+            for k in range(n):
+                srt = f.var_sort(k)
+                key = srt.name() if hasattr(srt, "name") else str(srt)
+                cands.append(terms.get(key, [])[:cap])
+            if any(len(c) == 0 for c in cands):
+                return z3.BoolVal(True)
+            import itertools
+            insts = []
+            for combo in itertools.islice(itertools.product(*cands), 400):
+                # de Bruijn: variable 0 is the LAST bound variable
+                body = z3.substitute_vars(f.body(), *reversed(combo))
+                insts.append(_instantiate(body, terms, True, cap))
+            return z3.And(*insts) if insts else z3.BoolVal(True)
+        return z3.BoolVal(True) if positive else f
+    if z3.is_and(f) or z3.is_or(f):
+        ch = [_instantiate(c, terms, positive, cap) for c in f.children()]
+        return (z3.And if z3.is_and(f) else z3.Or)(*ch)
+    if z3.is_implies(f):
+        a, b = f.children()
+        return z3.Implies(_instantiate_neg(a), _instantiate(b, terms, positive, cap)) if positive else f
+    if z3.is_not(f):
+        return f
+    return f
+
+
+def _instantiate_neg(f):
+    # antecedents: leave as they are if quantifier-free, otherwise drop to True (weakens the implication's guard -> stronger hyp is NOT sound);
+    # so only quantifier-free antecedents are kept; an implication with a quantified antecedent is dropped by the caller
+    return f
+
+
+def _has_q(f, cache={}):
+    i = f.get_id()
+    if i in cache:
+        return cache[i]
+    r = z3.is_quantifier(f) or (z3.is_app(f) and any(_has_q(c) for c in f.children()))
+    cache[i] = r
+    return r
+
+
+def ground_fallback(hyps, goal, timeout_ms):
+    """Weaken the hypotheses to ground instances of their universal quantifiers (2 rounds).
+    unsat here => the original VC is valid (instances are consequences of the quantified facts).
+    sat here  => a counter-model of the ground-instantiated VC (reported as such)."""
+    ng = z3.Not(goal)
+    qf = [h for h in hyps if not _has_q(h)]
+    qs = [h for h in hyps if _has_q(h)]
+    cur = list(qf) + [ng]
+    insts = []
+    for rnd in range(2):
+        terms = _ground_terms(cur + insts)
+        insts = []
+        for h in qs:
+            if z3.is_implies(h) and _has_q(h.children()[0]):
+                continue
+            g = _instantiate(h, terms)
+            if _has_q(g):
+                continue    # a quantifier remained (negative position): drop this hypothesis (weakening, sound for unsat)
+            insts.append(g)
+    s = z3.Solver()
+    s.set("timeout", timeout_ms)
+    for f in qf + insts:
+        s.add(f)
+    if _has_q(ng):
+        s.set("smt.mbqi", True)
+    s.add(ng)
+    r = s.check()
+    return r, (s.model() if r == z3.sat else None)
+
+
+def discharge(ob, z3_timeout_ms=10000, cvc5_timeout_s=30, cross_check=False, expect_sat=False):
     """sets ob.status in {unsat, sat, unknown}, ob.backend, ob.model (z3 model object kept for replay extraction)"""
     t0 = time.time()
     goal = ob.goal
@@ -68,12 +166,17 @@ def discharge(ob, z3_timeout_ms=10000, cvc5_timeout_s=30, cross_check=False):
             s.add(h)
         s.add(z3.Not(goal))
         return s
+    if expect_sat:
+        # known-finding probes: the obligation is expected to have a counter-model; look for it first
+        try:
+            gr, gm = ground_fallback(ob.hyps, goal, z3_timeout_ms)
+            if gr == z3.sat:
+                ob.status, ob.backend, ob.model, ob.time = "sat", "z3-ground-instances", gm, time.time() - t0
+                return ob
+        except Exception:
+            pass
     s = mk(False)
     r = s.check()
-    if r == z3.unknown:
-        z3_timeout_ms = max(2000, z3_timeout_ms // 2)
-        s = mk(True)   # model-based quantifier instantiation: can find counter-models under quantifiers
-        r = s.check()
     ob.time = time.time() - t0
     if r == z3.unsat:
         ob.status, ob.backend = "unsat", "z3"
@@ -85,6 +188,31 @@ def discharge(ob, z3_timeout_ms=10000, cvc5_timeout_s=30, cross_check=False):
     if r == z3.sat:
         ob.status, ob.backend = "sat", "z3"
         ob.model = s.model()
+        return ob
+    # unknown -> weaken quantified hypotheses to their ground instances
+    try:
+        gr, gm = ground_fallback(ob.hyps, goal, z3_timeout_ms)
+    except Exception as e:      # the fallback is an optimisation, never a verdict by itself when it breaks
+        gr, gm = z3.unknown, None
+        ob.fallback_error = repr(e)
+    ob.time = time.time() - t0
+    if gr == z3.unsat:
+        ob.status, ob.backend = "unsat", "z3-ground-instances"
+        return ob
+    if gr == z3.sat:
+        ob.status, ob.backend = "sat", "z3-ground-instances"
+        ob.model = gm
+        return ob
+    # model-based quantifier instantiation on the original VC: may still find a counter-model or a proof
+    z3_timeout_ms = max(2000, z3_timeout_ms // 2)
+    s = mk(True)
+    r = s.check()
+    ob.time = time.time() - t0
+    if r == z3.unsat:
+        ob.status, ob.backend = "unsat", "z3-mbqi"
+        return ob
+    if r == z3.sat:
+        ob.status, ob.backend, ob.model = "sat", "z3-mbqi", s.model()
         return ob
     # unknown -> cvc5
     cr, ct = run_cvc5(to_smt2(ob.hyps, goal), cvc5_timeout_s)
